@@ -259,7 +259,8 @@ class FakeSocket(object):
             if s.end == 'eof':
                 s.eof_delivered = True
                 return []
-            raise EngineLimit('blocking read on a silent peer')
+            # recv() on a blocking socket that has nothing to deliver and whose peer stays silent never returns: the caller hangs
+            raise LoopBudget('blocking recv() on a silent peer: the socket had not been reported readable; the call never returns')
         k = s.next_chunk_len(n)
         chunk = s.items[s.pos:s.pos + k]
         s.pos += k
